@@ -50,6 +50,9 @@ pub struct State {
     pub set_type_ids_calls: usize,
     /// native mode: the real `NativeEffectBackend` is behind this log (file / directory kinds only)
     pub native: bool,
+    /// native mode: a submitted operation did not complete in time (a loaded machine: fsync on a
+    /// busy disk) — the case is inconclusive and is abandoned, it is NOT a finding
+    pub aborted: bool,
 }
 
 #[derive(Clone)]
@@ -401,8 +404,8 @@ impl EffectBackend for WrapBackend {
             if self.buffered.len() >= want {
                 break;
             }
-            if start.elapsed().as_millis() > 3000 {
-                self.sh.lock().calls.push(Call::Surprise(format!("{} of {want} submitted operations did not complete within 3 s", want - self.buffered.len())));
+            if start.elapsed().as_millis() > 20000 {
+                self.sh.lock().aborted = true;
                 break;
             }
             std::thread::sleep(std::time::Duration::from_micros(30));
